@@ -36,44 +36,44 @@ func TestMain(m *testing.M) {
 // ---------------------------------------------------------------- records
 
 type QER struct {
-	Update bool    `json:"update"`
-	SEID   uint64  `json:"seid"`
-	ID     uint32  `json:"id"`
-	Gate   *uint8  `json:"gate,omitempty"`
+	Update bool       `json:"update"`
+	SEID   uint64     `json:"seid"`
+	ID     uint32     `json:"id"`
+	Gate   *uint8     `json:"gate,omitempty"`
 	MBR    *[2]uint64 `json:"mbr,omitempty"` // UL, DL
 	GBR    *[2]uint64 `json:"gbr,omitempty"`
-	QFI    *uint8  `json:"qfi,omitempty"`
-	RQI    *uint8  `json:"rqi,omitempty"`
-	PPI    *uint8  `json:"ppi,omitempty"`
-	Corr   *uint32 `json:"corr,omitempty"`
-	Order  []int   `json:"order"`
+	QFI    *uint8     `json:"qfi,omitempty"`
+	RQI    *uint8     `json:"rqi,omitempty"`
+	PPI    *uint8     `json:"ppi,omitempty"`
+	Corr   *uint32    `json:"corr,omitempty"`
+	Order  []int      `json:"order"`
 }
 
 type Vol struct {
-	Flags      uint8  `json:"flags"`
+	Flags      uint8 `json:"flags"`
 	To, Ul, Dl uint64
 }
 
 type URR struct {
-	Verb    string  `json:"verb"` // create update remove
-	SEID    uint64  `json:"seid"`
-	ID      uint32  `json:"id"`
-	Method  *uint8  `json:"method,omitempty"`
-	Info    *uint8  `json:"info,omitempty"`
-	Trig    []byte  `json:"trig,omitempty"` // 2 or 3 octets
-	Period  uint32  `json:"period,omitempty"` // seconds, 0 = absent
-	Thresh  *Vol    `json:"thresh,omitempty"`
-	Quota   *Vol    `json:"quota,omitempty"`
-	Order   []int   `json:"order"`
+	Verb   string `json:"verb"` // create update remove
+	SEID   uint64 `json:"seid"`
+	ID     uint32 `json:"id"`
+	Method *uint8 `json:"method,omitempty"`
+	Info   *uint8 `json:"info,omitempty"`
+	Trig   []byte `json:"trig,omitempty"`   // 2 or 3 octets
+	Period uint32 `json:"period,omitempty"` // seconds, 0 = absent
+	Thresh *Vol   `json:"thresh,omitempty"`
+	Quota  *Vol   `json:"quota,omitempty"`
+	Order  []int  `json:"order"`
 }
 
 type BAR struct {
-	Update bool    `json:"update"`
-	SEID   uint64  `json:"seid"`
-	ID     uint8   `json:"id"`
-	Delay  *uint8  `json:"delay,omitempty"`
-	Count  *uint8  `json:"count,omitempty"`
-	Order  []int   `json:"order"`
+	Update bool   `json:"update"`
+	SEID   uint64 `json:"seid"`
+	ID     uint8  `json:"id"`
+	Delay  *uint8 `json:"delay,omitempty"`
+	Count  *uint8 `json:"count,omitempty"`
+	Order  []int  `json:"order"`
 }
 
 type Case struct {
@@ -182,26 +182,26 @@ type cVol struct {
 }
 
 type canon struct {
-	Cmd    int
-	Create bool
-	Link   uint32
-	SEID   uint64
-	ID     uint64
-	Gate   *uint8
-	MBR    *cRate
-	GBR    *cRate
-	QFI    *uint8
-	RQI    *uint8
-	PPI    *uint8
-	Corr   *uint32
-	Method *uint8
-	Info   *uint64
-	Trig   *uint32
+	Cmd       int
+	Create    bool
+	Link      uint32
+	SEID      uint64
+	ID        uint64
+	Gate      *uint8
+	MBR       *cRate
+	GBR       *cRate
+	QFI       *uint8
+	RQI       *uint8
+	PPI       *uint8
+	Corr      *uint32
+	Method    *uint8
+	Info      *uint64
+	Trig      *uint32
 	HasPeriod bool
-	Thresh *cVol
-	Quota  *cVol
-	Delay  *uint8
-	Count  *uint16
+	Thresh    *cVol
+	Quota     *cVol
+	Delay     *uint8
+	Count     *uint16
 }
 
 type decErr struct{ msg string }
@@ -905,6 +905,7 @@ func genBAR(t *rapid.T) *BAR {
 }
 
 func run(c Case) (*vcore.Violation, int) {
+	vcore.Journal(c)
 	switch {
 	case c.QER != nil:
 		return checkQER(c.QER), 0
